@@ -147,8 +147,16 @@ def negotiate(chk, suite, limit, sets=None, behs=None):
             try:
                 given = None if al_spec is None else shape(rng, [to_py(s) for s in al_spec])
                 snapshot = (type(given), sorted(map(repr, given))) if isinstance(given, (set, list, tuple)) else None
-                conn = Connection('example.org', 25570, username='user', allowed_versions=given,
-                                  initial_version=None if ini_spec is None else to_py(ini_spec))
+                # who logs in: an offline user name, or an authentication token whose selected profile names the player - whatever
+                # else the token holds (one rebuilt from saved tokens and refreshed has a profile but no account name)
+                who = dict(username='user')
+                if rng.random() < 0.3:
+                    from minecraft import authentication as A
+                    tok = A.AuthenticationToken(username=rng.choice([None, '', 'account@example.org']), access_token='ACC', client_token='CLI')
+                    tok.profile = A.Profile(id_='0123456789abcdef0123456789abcdef', name='user')
+                    who = dict(auth_token=tok, username=rng.choice([None, 'OfflineName']))
+                conn = Connection('example.org', 25570, allowed_versions=given,
+                                  initial_version=None if ini_spec is None else to_py(ini_spec), **who)
             except ValueError:
                 o['construct'] = 'ValueError'
                 conn = None
